@@ -76,6 +76,12 @@ def zabs(x):
     return z3.If(x >= 0, x, -x)
 
 
+def within(x, tol):
+    """|x| <= tol without an ite"""
+    t = rv(tol) if not z3.is_expr(tol) else tol
+    return z3.And(x <= t, -x <= t)
+
+
 class Obl:
     """bookkeeping of obligations for one work item"""
 
@@ -309,7 +315,7 @@ def prove_sum_close(ob, impl, spec_terms, tol, label, cex, spec_const=0):
     adds behaviours).  If any piece fails, the monolithic query decides."""
     I, res = ob.I, ob.res
     spec_sum = (z3.Sum([_real(t) for t in spec_terms]) if len(spec_terms) > 1 else (_real(spec_terms[0]) if spec_terms else z3.RealVal(0))) + rv(spec_const)
-    claim = zabs(impl - spec_sum) <= rv(tol)
+    claim = within(impl - spec_sum, tol)
     try:
         ia = addends(impl)
         sa = addends(spec_sum)
@@ -341,7 +347,7 @@ def prove_sum_close(ob, impl, spec_terms, tol, label, cex, spec_const=0):
             ok = True
             nl = 0
             for key, (gi, gs) in groups.items():
-                lem = zabs(tot(gi, False) - tot(gs, False)) <= rv(Fraction(tol) / ng)
+                lem = within(tot(gi, False) - tot(gs, False), Fraction(tol) / ng)
                 I.solver.push()
                 I.solver.add(z3.Not(lem))
                 t0 = time.time()
@@ -364,7 +370,7 @@ def prove_sum_close(ob, impl, spec_terms, tol, label, cex, spec_const=0):
                         res["sat"] -= 1
                     break
                 nl += 1
-                abs_lemmas.append(zabs(tot(gi, True) - tot(gs, True)) <= rv(Fraction(tol) / ng))
+                abs_lemmas.append(within(tot(gi, True) - tot(gs, True), Fraction(tol) / ng))
             if ok:
                 subs = [(a, r) for a, r in atoms.values()]
                 a_impl = z3.substitute(impl, *subs)
@@ -373,7 +379,7 @@ def prove_sum_close(ob, impl, spec_terms, tol, label, cex, spec_const=0):
                 s2.set("timeout", 60000)
                 for l in abs_lemmas:
                     s2.add(l)
-                s2.add(z3.Not(zabs(a_impl - a_spec) <= rv(tol)))
+                s2.add(z3.Not(within(a_impl - a_spec, tol)))
                 t0 = time.time()
                 r = s2.check()
                 res["solver_s"] += time.time() - t0
@@ -384,4 +390,61 @@ def prove_sum_close(ob, impl, spec_terms, tol, label, cex, spec_const=0):
                 res["notes"].append("summand cut: abstract combination not unsat (%s) for %s; monolithic query used" % (r, label))
     except Exception as ex:   # decomposition is an optimisation only
         res["notes"].append("summand cut not applied (%s: %s)" % (type(ex).__name__, ex))
+    return ob.prove(claim, label, cex)
+
+
+def abstract_ites(exprs):
+    """replace every maximal ite-subterm by a fresh constant (same term -> same constant)"""
+    memo = {}
+    fresh = {}
+
+    def go(e):
+        k = e.get_id()
+        if k in memo:
+            return memo[k]
+        if z3.is_app(e) and e.decl().kind() == z3.Z3_OP_ITE:
+            r = z3.Const("__ite%d" % len(fresh), e.sort())
+            fresh[k] = r
+        elif z3.is_app(e) and e.num_args() > 0:
+            ch = [go(c) for c in e.children()]
+            r = e.decl()(*ch)
+        else:
+            r = e
+        memo[k] = r
+        return r
+    return [go(e) for e in exprs]
+
+
+def prove_via_lemmas(ob, claim, lemmas, label, cex):
+    """prove each lemma under the path condition (small queries), then derive the claim from the lemmas alone by a
+    query in which ite-terms are opaque constants (sound over-approximation).  Falls back to the monolithic query."""
+    I, res = ob.I, ob.res
+    ok = True
+    n = 0
+    for lem in lemmas:
+        I.solver.push()
+        I.solver.add(z3.Not(lem))
+        t0 = time.time()
+        r = I.solver.check()
+        res["solver_s"] += time.time() - t0
+        I.solver.pop()
+        if r != z3.unsat:
+            ok = False
+            break
+        n += 1
+    if ok:
+        ab = abstract_ites(list(lemmas) + [claim])
+        s2 = z3.Solver()
+        s2.set("timeout", 60000)
+        for l in ab[:-1]:
+            s2.add(l)
+        s2.add(z3.Not(ab[-1]))
+        t0 = time.time()
+        r = s2.check()
+        res["solver_s"] += time.time() - t0
+        if r == z3.unsat:
+            res["obligations"] += n + 1
+            res["discharged"] += n + 1
+            return True
+        res["notes"].append("lemma combination not unsat (%s) for %s; monolithic query used" % (r, label))
     return ob.prove(claim, label, cex)
